@@ -7,6 +7,7 @@ CONSTANTS
   Places = {"global", "closure", "list", "box", "hash", "cont", "host"}
   Derive = TRUE
   Pair = FALSE
+  Threads = FALSE
   Defects = {"shared_stack"}
   EmitCases = TRUE
 INVARIANTS TypeOK Emit
